@@ -337,16 +337,19 @@ def fam_data(item, res, viol, calls):
     for N, bs in ((5, 2), (4, 4), (6, 4), (3, 1)):
         for norm in (1, 2, "inf"):
             for root in (1.0, 2.0):
-                for constrain in (False, True):
-                    for full in (False, True):
-                        cfg = "data|N=%d|bs=%d|norm=%s|root=%s|constrain=%s|full=%s" % (N, bs, norm, root, constrain, full)
+                for constrain, full, shuffle in ((False, False, False), (False, True, False), (True, False, False), (True, True, False),
+                                                 (False, False, True), (True, True, True)):
+                    if True:
+                        cfg = "data|N=%d|bs=%d|norm=%s|root=%s|constrain=%s|full=%s|shuffle=%s" % (N, bs, norm, root, constrain, full, shuffle)
                         res["states"].append(cfg)
                         x = torch.arange(N * 2, dtype=torch.float32).reshape(N, 2) * 0.1 + 0.3
                         model = RecModel(Space({"x": 2}), 1)
                         with torch.no_grad():
                             out = model(Points(x, Space({"x": 2}))).as_tensor
                         y = out - (torch.arange(N, dtype=torch.float32).reshape(N, 1) % 3 + 1) * 0.25
-                        ld = PointsDataLoader((Points(x, Space({"x": 2})), Points(y, Space({"u": 1}))), batch_size=bs)
+                        # shuffling: the ONE permutation drawn (scripted: reversal) must be applied to inputs and targets alike
+                        with Seam({0: "REV", 1: "ROT", 2: "ROT"}):
+                            ld = PointsDataLoader((Points(x, Space({"x": 2})), Points(y, Space({"u": 1}))), batch_size=bs, shuffle=shuffle)
                         cf = (lambda u, x: 2.0 * u + x[:, :1]) if constrain else None
                         try:
                             cond = Cn.DataCondition(model, ld, norm=norm, root=root, use_full_dataset=full, constrain_fn=cf)
@@ -358,6 +361,8 @@ def fam_data(item, res, viol, calls):
                         res["transitions"] += 4
                         pred = (2.0 * out + x[:, :1]) if constrain else out
                         a = (pred - y).abs().double().reshape(-1).numpy()
+                        if shuffle:
+                            a = a[::-1]
                         chunks = [a[i:i + bs] for i in range(0, N, bs)]
 
                         def red(c):
